@@ -1,3 +1,102 @@
-(* C03 -- HLL union = sketch of the combined streams.  Statements only (being built). *)
-From DS Require Import Base.Prelude Model.Hll Model.HllUnion.
+(* C03 -- HLL union equals the sketch of the combined streams, whatever the input shapes.
+   Statements only; proofs are in Proofs/HllUnionProofs.v.
+
+   Reading guide.
+   Model/HllUnion.v mirrors hll/union.rs function by function (update dispatch, copy_or_downsample,
+   merge_array_same_lgk / with_downsample, gadget shrink, promote-and-merge, to_sketch with
+   convert_array8_to_type, reset, update_value) and the Array8 bulk functions of hll/array8.rs
+   (rebuild_cached_values ...) over the HIP estimator state (hip_accum, kxq0, kxq1, out-of-order).
+   It models the REPAIRED code: /repo commits "fix: HllUnion reported estimate 0 after copying an
+   out-of-order Hll4/Hll6 sketch" (D3) and "fix: HllUnion::to_sketch(Hll4/Hll6) dropped the
+   gadget's out-of-order flag and estimator state" (D2); known_findings.d/D3-*, D2-*.
+
+   An abstract input [ainput] = (lg_k, array-mode flag, coupon list).  [SrcOK lg_k arr cs s]: the
+   source sketch s represents it -- in list/set mode its container holds exactly the coupons of cs
+   (with the C02 invariants), in array mode (Hll4, Hll6 or Hll8) register j = spec_regs lg_k cs j;
+   ANY estimator state (in order or out of order), so freshly built, deserialized, foreign and
+   union-produced sketches are all covered.  [uop] = UMerge i s | UValue c | UReset.
+   Spec: [spec_run lg_max ops] = (harr, lg, cs) since the last reset: harr = some non-empty
+   array-mode input was merged; lg = min (lg_max, lg_k of those inputs); cs = all coupons merged.
+   [union_shows lg_max harr lg cs g]: gadget g (always Hll8) has lg_k = lg; it is in array mode iff
+   harr or the number of distinct coupons passed the promotion threshold of lg_max, and then
+   register j = max value over the coupons of cs folded to slot j mod 2^lg; otherwise lg = lg_max
+   and its container holds exactly the distinct coupons of cs. *)
+From DS Require Import Base.Prelude Model.Hll Model.HllUnion Proofs.HllBase Proofs.HllRefine Proofs.HllUnionProofs.
 Open Scope N_scope.
+
+(* ---- union_refines, with update_value and reset interleaved (union_interleave): for all lg_max
+   in 4..21 and all sequences of operations on well-formed inputs the union never reaches a panic
+   site and shows exactly the Spec state (to_sketch is a pure function of that state) *)
+Theorem c03_union_refines :
+  forall lg_max ops, 4 <= lg_max <= 21 -> Forall uop_ok ops ->
+  exists u0 u, union_new lg_max = Ok u0 /\ uops_run ops u0 = Ok u /\
+    let '(harr, lg, cs) := spec_run lg_max ops (false, lg_max, []) in
+    union_shows lg_max harr lg cs (un_gadget u) /\ un_lg_max u = lg_max.
+Proof. exact union_refines. Qed.
+
+(* ---- commutative, idempotent: two unions fed sketches of the same SET of abstract inputs -- in
+   any order, with any repetition, each input represented by any sketch (any type, in or out of
+   order) -- show the same lg_k, mode, coupon set / registers *)
+Theorem c03_union_order_independent :
+  forall lg_max l l', 4 <= lg_max <= 21 ->
+  Forall uop_ok (merges l) -> Forall uop_ok (merges l') ->
+  (forall i, In i (map fst l) <-> In i (map fst l')) ->
+  exists u0 u u', union_new lg_max = Ok u0 /\ uops_run (merges l) u0 = Ok u /\ uops_run (merges l') u0 = Ok u' /\
+    sk_lgk (un_gadget u) = sk_lgk (un_gadget u') /\ sk_tag (un_gadget u) = sk_tag (un_gadget u') /\
+    sk_len (un_gadget u) = sk_len (un_gadget u') /\
+    (forall c, In c (sk_coupons (un_gadget u)) <-> In c (sk_coupons (un_gadget u'))) /\
+    (forall j, j < 2 ^ sk_lgk (un_gadget u) -> sk_reg (un_gadget u) j = sk_reg (un_gadget u') j).
+Proof. exact union_order_independent. Qed.
+
+(* ---- to_sketch(t) does not depend on t: same lg_k, mode, coupons / registers and the SAME
+   estimator inputs (hip_accum, kxq0, kxq1, out-of-order flag, number of unhit registers), hence
+   bit-identical estimate and bounds; and the result is a well-formed source representing the
+   union's Spec state (associativity: a union's result can be merged into another union and
+   c03_union_refines applies to it) *)
+Theorem c03_to_sketch_type_independent :
+  forall lg_max ops t, 4 <= lg_max <= 21 -> Forall uop_ok ops ->
+  exists u0 u r r8, union_new lg_max = Ok u0 /\ uops_run ops u0 = Ok u /\
+    union_to_sketch u t = Ok r /\ union_to_sketch u T8 = Ok r8 /\ sk_tgt r = t /\
+    sk_lgk r = sk_lgk r8 /\ sk_tag r = sk_tag r8 /\ sk_len r = sk_len r8 /\
+    sk_est_inputs r = sk_est_inputs r8 /\
+    (forall c, In c (sk_coupons r) <-> In c (sk_coupons r8)) /\
+    (forall j, j < 2 ^ sk_lgk r -> sk_reg r j = sk_reg r8 j) /\
+    let '(harr, lg, cs) := spec_run lg_max ops (false, lg_max, []) in
+    SrcOK lg (match sk_tag (un_gadget u) with TagArray => true | _ => false end) cs r.
+Proof. exact to_sketch_type_independent. Qed.
+
+(* ---- union_nonzero.  Full statement (NOT proved; it needs positivity of a sum of binary64 HIP
+   increments and of the ln-based composite estimator, which is not modelled):
+       some merged input is non-empty -> estimate of the union > 0.
+   Proved part: merging a non-empty OUT-OF-ORDER array-mode sketch (any type) always leaves an
+   out-of-order Array8 gadget with a non-zero register, i.e. the estimate is the composite estimate
+   of a non-empty register file, never the zeroed HIP accumulator of the source (defect D3). *)
+Theorem c03_union_nonzero_partial :
+  forall lg_max ops i s se, 4 <= lg_max <= 21 -> Forall uop_ok ops ->
+  uop_ok (UMerge i s) -> in_active i = true -> mode_est (sk_mode s) = Ok se -> h_ooo se = true ->
+  exists u0 u u' a, union_new lg_max = Ok u0 /\ uops_run ops u0 = Ok u /\ union_update u s = Ok u' /\
+    sk_mode (un_gadget u') = MArr8 a /\ h_ooo (a8_est a) = true /\ a8_nz a < 2 ^ a8_lgk a.
+Proof. exact union_nonzero_partial. Qed.
+
+(* ---- sketches built by HllSketch::new + updates are well-formed inputs (so are their
+   out-of-order copies: the estimator state is unconstrained in SrcOK) *)
+Theorem c03_stream_is_source :
+  forall lgk t cs, 4 <= lgk <= 21 -> Forall valid cs ->
+  exists s, run_stream hip_new hip_update hip_carry lgk t cs = Ok s /\ SrcOK lgk (tag_flag (sk_tag s)) cs s.
+Proof. exact stream_is_source. Qed.
+
+Theorem c03_estimator_state_irrelevant :
+  forall f lgk arrf cs s, SrcOK lgk arrf cs s -> SrcOK lgk arrf cs (with_est f s).
+Proof. exact with_est_src_ok. Qed.
+
+(* ---- non-vacuity: lg_max 10; an out-of-order Hll6 array (lg_k 10, 200 coupons), an Hll4 array of
+   lg_k 8, a 5-coupon list and one update_value: all hypotheses hold, the gadget ends as an array
+   folded to lg_k 8 *)
+Example c03_example :
+  exists s1 s2 s3,
+  hrun 10 T6 (in_cs ex_in1) = Ok s1 /\ hrun 8 T4 (in_cs ex_in2) = Ok s2 /\ hrun 10 T8 (in_cs ex_in3) = Ok s3 /\
+  Forall uop_ok [UMerge ex_in1 (with_est (hip_set_ooo true) s1); UMerge ex_in2 s2; UMerge ex_in3 s3; UValue (pack_coupon 77 9)] /\
+  exists u0 u, union_new 10 = Ok u0 /\
+  uops_run [UMerge ex_in1 (with_est (hip_set_ooo true) s1); UMerge ex_in2 s2; UMerge ex_in3 s3; UValue (pack_coupon 77 9)] u0 = Ok u /\
+  sk_lgk (un_gadget u) = 8 /\ sk_tag (un_gadget u) = TagArray.
+Proof. exact union_example. Qed.
